@@ -78,6 +78,24 @@ pub fn gen_case(rng: &mut Rng, thorough: bool) -> GenCase {
     let mut ops = vec![];
     let mut next_val = 100u64;
     let mut recent: Vec<u64> = vec![];
+    // scripted opening (one case in four with a capacity of at least 3): the cache is filled up to one
+    // short of its capacity, the oldest entry is read (that makes it the most recently used one),
+    // then two more keys arrive - the entry dropped is the second oldest, not the one just read
+    if let Some(c) = capacity {
+        if c >= 3 && rng.chance(1, 4) {
+            for k in 1..c as u64 {
+                next_val += 1;
+                ops.push((0, Op::Insert(k, next_val)));
+                recent.push(k);
+            }
+            ops.push((0, if rng.chance(1, 2) { Op::Get(1) } else { Op::GetMut(1, None) }));
+            for k in c as u64..c as u64 + 2 {
+                next_val += 1;
+                ops.push((0, Op::Insert(k, next_val)));
+                recent.push(k);
+            }
+        }
+    }
     for _ in 0..nops {
         // gaps: mostly none; 1-2 units = refreshed within the ttl; 3+ = idle longer than the ttl
         let gap = match rng.weighted(&[56, 14, 12, 10, 6, 2]) {
